@@ -266,6 +266,9 @@ def required_conflict(inc, exe, inc_peek, exe_peek, inter, deleted):
         return "incoming command must run alone"
     if inc in EXCLUSIVE_IF_DELETED and deleted:
         return "incoming EXPUNGE/CLOSE with \\Deleted messages must run alone"
+    if inc in EXCLUSIVE_IF_DELETED and exe == "STORE":
+        # `\Deleted` is judged when the EXPUNGE is admitted; a STORE admitted just before it has not set its flags yet
+        return "a running STORE may be about to flag messages \\Deleted: the EXPUNGE/CLOSE would then remove messages beside the other running commands"
     pair = {inc, exe}
     if "STORE" in pair:
         other = (pair - {"STORE"}).pop() if len(pair) == 2 else "STORE"
